@@ -18,18 +18,19 @@ def matches(c):
 LEVEL_TEXT = ("Lean theorems about total executable models of all seven parsers (FASTA, Phylip strict/relaxed/multi, Nexus, "
               "Clustal, Stockholm, partition + AddRange; termination = Lean's termination checker, explicit outcomes "
               "ok/error/exit/panic/hang), parametric in the guards regenerated from the working tree: the full C03 statement "
-              "over ALL byte strings and options is proved for the repaired FASTA, Stockholm, Nexus and partition parsers "
-              "(fasta_outcome_fixed, stockholm_outcome_fixed, nexus_outcome_fixed, partition_outcome, addRange_in_bounds for all 64-bit "
-              "start/end/modulo); for Phylip (single and multi) and Clustal the well-formedness of every success and absence of panics are "
-              "proved (…_outcome_partial, …_no_panic) while absence of hangs is open; the unrepaired code is refuted by "
-              "kernel-evaluated counter-examples. Models are tied to /repo by regenerated "
+              "over ALL byte strings and options is proved for the repaired FASTA, Stockholm, Nexus, Phylip and partition parsers "
+              "(fasta_outcome_fixed, stockholm_outcome_fixed, nexus_outcome_fixed, phylip_outcome_fixed, partition_outcome, "
+              "addRange_in_bounds for all 64-bit "
+              "start/end/modulo); for Clustal everything but 'at least one column' is proved "
+              "(clustal_outcome_fixed_partial: no panic, no hang, non-empty, rectangular, distinct names); the unrepaired code "
+              "is refuted by kernel-evaluated counter-examples. Models are tied to /repo by regenerated "
               "guard facts + differential correspondence on every generated input; the C03 predicate itself is evaluated "
               "by the compiled oracle on the implementation's outcome for every input.")
 LEVEL_NOTE = ("Trusted: Lean kernel; harness + python watchdog (hang = no answer within 3 s on inputs < 1 kB); the naive "
               "header scanners of Spec/Fmt.lean; tools/extract/fmtfacts.go (syntactic recognition of the guards); "
               "bufio/UTF-8 decoding (models are ASCII-only: non-ASCII inputs carry no correspondence obligation but are "
-              "still judged by the predicate). Never-hang for the repaired Phylip and Clustal parsers (and 'at least "
-              "one column' for Clustal) are open: see evidence 'partial'.")
+              "still judged by the predicate). 'At least one column' for Clustal and termination of the multi-Phylip "
+              "stream loop are open: see evidence 'partial'.")
 TECHNIQUE = "Lean 4 proof (total parser models, container invariant by induction over token lists) + exhaustive-truncation / mutation differential run"
 LEAN_MODULES = ["Gv.Props.C03"]
 REQUIRED_THEOREMS = ["Gv.Props.C03." + n for n in [
@@ -41,7 +42,8 @@ REQUIRED_THEOREMS = ["Gv.Props.C03." + n for n in [
     "phylip_counterexample_alloc_panic", "phylip_patched_witness",
     "partition_counterexample_overflow_panic", "partition_patched_witness", "addRange_in_bounds", "newPSet_inv",
     "partition_outcome", "phylip_outcome_partial", "phylip_multi_wellformed", "clustal_outcome_partial",
-    "nexus_outcome_partial", "clustal_no_panic", "phylip_no_panic", "nexus_no_panic", "nexus_outcome_fixed", "clustal_no_hang", "clustal_outcome_fixed_partial"]]
+    "nexus_outcome_partial", "clustal_no_panic", "phylip_no_panic", "nexus_no_panic", "nexus_outcome_fixed", "clustal_no_hang", "clustal_outcome_fixed_partial",
+    "phylip_no_hang", "phylip_outcome_fixed"]]
 TRUSTED = ["bufio.Reader / UTF-8 rune decoding (inputs with bytes >= 128 are judged by the predicate only)",
            "python watchdog: hang = no answer within TIMEOUT",
            "tools/extract/fmtfacts.go: recognises the proposed guards syntactically; the models are parametric in these facts"]
@@ -59,13 +61,14 @@ RULE = ("valid files of each format (python writers + hand-written variants: int
         "non-trivial = differs from every seed file and the first changed byte lies beyond the header")
 
 PARTIAL = [
-    "FASTA, Stockholm, Nexus, partition parser (+AddRange): the full C03 outcome statement is proved for the repaired code "
-    "over all byte strings (fasta_outcome_fixed, stockholm_outcome_fixed, nexus_outcome_fixed, partition_outcome); the "
+    "FASTA, Stockholm, Nexus, Phylip (strict/relaxed), partition parser (+AddRange): the full C03 outcome statement is "
+    "proved for the repaired code over all byte strings (fasta_outcome_fixed, stockholm_outcome_fixed, nexus_outcome_fixed, "
+    "phylip_outcome_fixed, partition_outcome); the "
     "unrepaired variants are covered by "
     "*_partial theorems and kernel-evaluated counter-examples",
-    "Phylip (strict/relaxed, multi): proved: every returned alignment is well formed (phylip_outcome_partial, "
-    "phylip_multi_wellformed) and the repaired parser never panics (phylip_no_panic); OPEN: never hang (fuel sufficiency of "
-    "the block loops)",
+    "Phylip multi (ParseMultiple): every alignment handed on is well formed (phylip_multi_wellformed); termination of the "
+    "stream loop itself (each successful parse consumes input) is open; 'blank up to EOF' for the end-of-stream marker and "
+    "consistency with the header counts are checked by the oracle predicate only",
     "Nexus: consistency of a success with the declared ntax / nchar is checked by the oracle predicate on every run, "
     "not proved",
     "Clustal: proved: a success is non-empty, rectangular, distinct names (clustal_outcome_partial), the repaired parser "
